@@ -4,6 +4,7 @@ import (
 	"bufio"
 	"bytes"
 	"fmt"
+	"net"
 	"sort"
 	"strings"
 
@@ -34,10 +35,26 @@ var c09labels = []string{"a", "b", "www", "x-1", "_srv", "MiXed", "xn--0", "n1",
 
 // escaped and raw odd labels: escaped separators, escaped star / dot / upper case, control bytes,
 // quote, backslash, invalid and valid UTF-8 (raw and octal), an escape that does not unquote
-var c09odd = []string{"a+b", "\\052", "a\\054b", "a\\072b", "sp\\040ace", "\\101b", "\\377", "\\303\\251", "\xc3\xa9", "\xe9",
-	"q\\042", "b\\\\s", "t\\011", "\\000", "a\\056b", "x\\177", "\\342\\202\\254", "\xf0\x9f\x98\x80", "\"", "a b", "a\\qb", "\\x41", "\\u00e9", "*"}
+var c09odd = []string{"a+b", "\\052", "a\\054b", "a\\072b", "sp\\040ace", "\\101b",
+	"q\\042", "b\\\\s", "t\\011", "\\000", "a\\056b", "x\\177", "\"", "a b", "a\\qb", "\\x41", "*"}
+
+// labels with bytes >= 0x80 (valid / invalid UTF-8, raw and escaped): only for names that are not
+// lower-cased into a key (Go's bytes.ToLower is rune based; the codec model's is ASCII only)
+var c09hi = []string{"\\377", "\\303\\251", "\xc3\xa9", "\xe9", "\\342\\202\\254", "\xf0\x9f\x98\x80", "\\u00e9", "\\U0001f600", "\xc3", "a\xe2\x82"}
+
+var c09hiOK bool
+
+// name that is only ever written with putdom (never lower-cased into a key): high bytes allowed
+func (g *gen) c09nameHi() string {
+	c09hiOK = true
+	defer func() { c09hiOK = false }()
+	return g.c09name()
+}
 
 func (g *gen) c09label() string {
+	if c09hiOK && g.chance(1, 8) {
+		return g.pick(c09hi)
+	}
 	if g.chance(1, 6) {
 		return g.pick(c09odd)
 	}
@@ -231,7 +248,7 @@ func (g *gen) c09line(t byte, serial uint32) string {
 				ser = "1"
 			}
 		}
-		return g.c09join("Z", []string{g.c09name(), g.c09name(), g.c09name(), ser, g.c09num(4294967295), g.c09num(4294967295), g.c09num(4294967295), g.c09num(4294967295), g.c09num(4294967295), unused, g.c09loc()})
+		return g.c09join("Z", []string{g.c09name(), g.c09nameHi(), g.c09nameHi(), ser, g.c09num(4294967295), g.c09num(4294967295), g.c09num(4294967295), g.c09num(4294967295), g.c09num(4294967295), unused, g.c09loc()})
 	case '.', '&':
 		o := g.c09name()
 		return g.c09join(string(t), []string{o, g.c09ip(), g.c09server(o), g.c09num(4294967295), unused, g.c09loc()})
@@ -246,9 +263,9 @@ func (g *gen) c09line(t byte, serial uint32) string {
 		o := g.c09name()
 		return g.c09join("S", []string{o, g.c09ip(), g.c09server(o), g.c09num(65535), g.c09num(65535), g.c09num(65535), g.c09num(4294967295), unused, g.c09loc()})
 	case 'C':
-		return g.c09join("C", []string{g.c09wname(), g.c09name(), g.c09num(4294967295), unused, g.c09loc()})
+		return g.c09join("C", []string{g.c09wname(), g.c09nameHi(), g.c09num(4294967295), unused, g.c09loc()})
 	case '^':
-		return g.c09join("^", []string{g.c09name(), g.c09name(), g.c09num(4294967295), unused, g.c09loc()})
+		return g.c09join("^", []string{g.c09name(), g.c09nameHi(), g.c09num(4294967295), unused, g.c09loc()})
 	case '\'':
 		return g.c09join("'", []string{g.c09wname(), g.pick(c09txts), g.c09num(4294967295), unused, g.c09loc()})
 	case ':':
@@ -259,6 +276,9 @@ func (g *gen) c09line(t byte, serial uint32) string {
 			n = "a" + n
 		}
 		if g.chance(1, 4) {
+			if strings.Trim(n, ".") == "" { // `M*.` : confirmed defect class
+				n = "a"
+			}
 			n = "*." + n
 		}
 		return g.c09join(string(t), []string{n, g.c09lmap()})
@@ -273,11 +293,15 @@ func (g *gen) c09line(t byte, serial uint32) string {
 		}
 		return g.c09join("!", f)
 	case 'B', 'H':
-		tgt := g.c09name()
-		if g.chance(1, 8) {
-			tgt = "*." + tgt
+		tgt := g.c09nameHi()
+		if g.chance(1, 8) && !strings.HasPrefix(tgt, "*") && !strings.HasPrefix(tgt, "\\052") && !strings.HasPrefix(tgt, ".") {
+			tgt = "*." + tgt // the `*.` of a target is dropped by the parser; `*.*.` is a confirmed defect class
 		}
-		return g.c09join(string(t), []string{g.c09name(), tgt, g.c09num(4294967295), g.c09loc(), g.c09num(65535), g.pick(c09params)})
+		owner := g.c09name()
+		if strings.HasPrefix(owner, "*") || strings.HasPrefix(owner, "\\052") { // wildcard owner on B/H: confirmed defect class
+			owner = "a" + owner
+		}
+		return g.c09join(string(t), []string{owner, tgt, g.c09num(4294967295), g.c09loc(), g.c09num(65535), g.pick(c09params)})
 	}
 	return "?"
 }
@@ -316,8 +340,18 @@ func (g *gen) c09file(serial uint32) []string {
 		lines = append(lines, fmt.Sprintf("%%%s,%s,%s", lo, net, g.pick([]string{"m1", "e1", "\\000\\000", "m"})))
 	}
 	var out []string
+	seen := map[string]bool{}
 	for _, l := range lines {
 		t := strings.TrimLeft(l, " ")
+		if strings.HasPrefix(t, "%") {
+			// one location per (range, map): the order of equal range points after sort.Slice is unspecified
+			f := strings.Split(t[1:], ",")
+			k := c09netKey(f[1]) + "|" + f[2]
+			if seen[k] {
+				continue
+			}
+			seen[k] = true
+		}
 		if len(t) == 1 { // a one-character line: confirmed defect class (preprocessing decodes it, the parser skips it)
 			continue
 		}
@@ -325,6 +359,16 @@ func (g *gen) c09file(serial uint32) []string {
 	}
 	g.shuffle(out)
 	return out
+}
+
+func c09netKey(s string) string {
+	if _, n, err := net.ParseCIDR(s); err == nil {
+		return n.String()
+	}
+	if ip := net.ParseIP(s); ip != nil {
+		return ip.String()
+	}
+	return s
 }
 
 func c09gen(g *gen, tier string, w *bufio.Writer) {
